@@ -398,6 +398,25 @@ type fakeConsul struct {
 	delay       time.Duration
 	catInFlight int
 	catSeen     int
+	// error injection: 500 for the catalog lookup of these service names / for the health query
+	failCatalog map[string]bool
+	failHealth  bool
+	failedSeen  int
+}
+
+func (f *fakeConsul) setFail(catalog string, health bool) {
+	f.mu.Lock()
+	f.failCatalog = map[string]bool{}
+	if catalog != "" {
+		f.failCatalog[catalog] = true
+	}
+	f.failHealth = health
+	f.mu.Unlock()
+}
+func (f *fakeConsul) failures() int {
+	f.mu.Lock()
+	defer f.mu.Unlock()
+	return f.failedSeen
 }
 
 func (f *fakeConsul) setSlow(on bool, d time.Duration) {
@@ -468,6 +487,12 @@ func (f *fakeConsul) handle(w http.ResponseWriter, r *http.Request) {
 			f.cond.Wait() // blocking query; parked for good once the history is over
 		}
 		idx, cs := f.index, f.checks
+		if f.failHealth {
+			f.failedSeen++
+			f.mu.Unlock()
+			http.Error(w, "injected health failure", http.StatusInternalServerError)
+			return
+		}
 		f.mu.Unlock()
 		if cs == nil {
 			cs = api.HealthChecks{}
@@ -476,6 +501,12 @@ func (f *fakeConsul) handle(w http.ResponseWriter, r *http.Request) {
 	case strings.HasPrefix(p, "/v1/catalog/service/"):
 		name := strings.TrimPrefix(p, "/v1/catalog/service/")
 		f.mu.Lock()
+		if f.failCatalog[name] {
+			f.failedSeen++
+			f.mu.Unlock()
+			http.Error(w, "injected catalog failure", http.StatusInternalServerError)
+			return
+		}
 		out := []*api.CatalogService{}
 		for _, e := range f.catalog {
 			if e.ServiceName == name {
@@ -658,6 +689,9 @@ func partB(run *vh.Run) {
 		delayed []bool
 		// installed: the pushed configs also go through the real watchBackend loop
 		installed bool
+		// fail[k]: while snapshot k is current the fake answers 500 - "health", or
+		// "catalog:<service name>" - until the driver lifts the failure
+		fail []string
 	}
 	var hists []hist
 	// directed histories first: colliding node/id pairs (repaired F-C01-1), blank-padded route tags (repaired F-C01-2) and their neighbours
@@ -745,6 +779,29 @@ func partB(run *vh.Run) {
 		hists = append(hists, h)
 	}
 
+	// lookup-failure histories (c8f84e8): good table installed -> the registry changes while the
+	// catalog lookup of one service (or the health query) answers 500 -> it recovers.  Nothing may
+	// be pushed while the failure lasts (the installed table keeps the service's routes); the
+	// config of the current state is pushed after recovery.
+	nf := run.Scale(6, 60)
+	for i := 0; i < nf; i++ {
+		h := hist{class: "svc-lookup-failure", prefix: tagPrefix, status: []string{"passing"}, strict: i%2 == 1, monitors: r.Intn(3), installed: true}
+		g1 := inst{node: "n1", sid: "s1", name: "svc-a", tags: []string{"urlprefix-/foo", "v1"}, addr: "10.0.0.1", port: 8001}
+		g2 := inst{node: "n2", sid: "s2", name: "svc-b", tags: []string{"urlprefix-x.com/bar"}, addr: "10.0.0.2", port: 8002}
+		g3 := inst{node: "n3", sid: "s3", name: "svc-a", tags: []string{"urlprefix-/foo", "urlprefix-/three"}, addr: "10.0.0.3", port: 8003}
+		okc := func(in inst, st string) *api.HealthCheck { return svcCheck(in, "service:"+in.sid, st) }
+		f1 := []string{"catalog:svc-b", "catalog:svc-a", "health"}[i%3]
+		f2 := []string{"health", "catalog:svc-b", "catalog:svc-a"}[i%3]
+		h.states = []regState{
+			{[]inst{g1, g2}, []*api.HealthCheck{okc(g1, "passing"), okc(g2, "passing")}},
+			{[]inst{g1, g2, g3}, []*api.HealthCheck{okc(g1, "passing"), okc(g2, "passing"), okc(g3, "passing")}},
+			{[]inst{g1, g2, g3}, []*api.HealthCheck{okc(g1, "critical"), okc(g2, "passing"), okc(g3, "passing")}},
+			{[]inst{g1, g2, g3}, []*api.HealthCheck{okc(g1, "passing"), okc(g2, "passing"), okc(g3, "critical")}},
+		}
+		h.fail = []string{"", f1, "", f2}
+		hists = append(hists, h)
+	}
+
 	// delayed-catalog histories: one service name (one catalog request per snapshot), every
 	// instance tagged; pairs of close snapshots (k: instance 0 healthy, slow catalog; k+1:
 	// instance 0 critical, fast catalog).  The configs must be pushed in snapshot order and
@@ -783,10 +840,12 @@ func partB(run *vh.Run) {
 	}
 
 	type result struct {
-		texts []string
-		cats  [][]*api.CatalogService
-		err   string
-		extra []string // configs pushed after the last snapshot's, during the grace period
+		texts      []string
+		cats       [][]*api.CatalogService
+		err        string
+		extra      []string     // configs pushed after the last snapshot's, during the grace period
+		stateOf    []int        // the snapshot that was current when texts[i] was pushed
+		failPushed map[int]bool // snapshot k (with an injected failure): was a config pushed while the failure lasted?
 	}
 	results := make([]result, len(hists))
 	var wg sync.WaitGroup
@@ -824,6 +883,7 @@ func partB(run *vh.Run) {
 				select {
 				case t := <-ch:
 					res.texts = append(res.texts, t)
+					res.stateOf = append(res.stateOf, k)
 					return true
 				case <-time.After(20 * time.Second):
 					res.err = fmt.Sprintf("no config pushed for state %d within 20 s", k)
@@ -832,6 +892,47 @@ func partB(run *vh.Run) {
 			}
 			const catalogDelay = 250 * time.Millisecond
 			for k := 0; k < len(h.states); k++ {
+				if h.fail != nil && h.fail[k] != "" {
+					// the registry changes while Consul answers 500: nothing may be pushed until it recovers
+					if res.failPushed == nil {
+						res.failPushed = map[int]bool{}
+					}
+					seen := f.failures()
+					if h.fail[k] == "health" {
+						f.setFail("", true)
+					} else {
+						f.setFail(strings.TrimPrefix(h.fail[k], "catalog:"), false)
+					}
+					f.set(h.states[k].checks, res.cats[k])
+					for dl := time.Now().Add(10 * time.Second); f.failures() == seen && time.Now().Before(dl); {
+						time.Sleep(time.Millisecond)
+					}
+					if f.failures() == seen {
+						res.err = fmt.Sprintf("the injected %s failure was never requested for snapshot %d", h.fail[k], k)
+						return
+					}
+					window := time.After(300 * time.Millisecond)
+					for done := false; !done; {
+						select {
+						case t := <-ch:
+							res.texts, res.stateOf = append(res.texts, t), append(res.stateOf, k)
+							res.failPushed[k] = true
+						case <-window:
+							done = true
+						}
+					}
+					f.setFail("", false)
+					select { // the retry after recovery (the loop sleeps 1 s between attempts)
+					case t := <-ch:
+						res.texts, res.stateOf = append(res.texts, t), append(res.stateOf, k)
+					case <-time.After(4 * time.Second):
+						if !res.failPushed[k] {
+							res.err = fmt.Sprintf("no config pushed for snapshot %d within 4 s after the failure was lifted", k)
+							return
+						}
+					}
+					continue
+				}
 				if h.delayed != nil && h.delayed[k] && k+1 < len(h.states) {
 					seen := f.catalogRequests()
 					f.setSlow(true, catalogDelay)
@@ -888,21 +989,37 @@ func partB(run *vh.Run) {
 				map[string]interface{}{"final_state": humanChecks(h.states[k].checks), "catalog": human,
 					"pushed_in_order": res.texts, "delayed_catalog_at": h.delayed})
 		}
-		for k, st := range h.states {
+		for k := range h.fail {
+			if h.fail[k] == "" {
+				continue
+			}
+			cat, human := coqCatalog(res.cats[k], h.prefix)
+			failing := []string{}
+			if strings.HasPrefix(h.fail[k], "catalog:") {
+				failing = []string{strings.TrimPrefix(h.fail[k], "catalog:")}
+			}
+			run.Add("svc-failed-round", vh.App("CFail", vh.Bool(h.fail[k] == "health"), strs(failing), vh.HxS(h.prefix), strs(h.status), vh.Bool(h.strict),
+				coqChecks(h.states[k].checks), cat, vh.Bool(res.failPushed[k])),
+				map[string]interface{}{"step": k, "failure": h.fail[k], "checks": humanChecks(h.states[k].checks), "catalog": human,
+					"pushed_during_failure": res.failPushed[k]})
+		}
+		for ti, text := range res.texts {
+			k := res.stateOf[ti]
+			st := h.states[k]
 			cat, human := coqCatalog(res.cats[k], h.prefix)
 			run.Add(h.class, vh.App("CSvc", vh.Bool(!h.inconsistent), vh.HxS(h.prefix), strs(h.status), vh.Bool(h.strict),
-				coqChecks(st.checks), cat, vh.HxS(res.texts[k])),
+				coqChecks(st.checks), cat, vh.HxS(text)),
 				map[string]interface{}{"step": k, "status": h.status, "strict": h.strict, "prefix": h.prefix,
-					"checks": humanChecks(st.checks), "catalog": human, "pushed": strings.Split(res.texts[k], "\n")})
+					"checks": humanChecks(st.checks), "catalog": human, "pushed": strings.Split(text, "\n")})
 			if !h.inconsistent {
-				emitE2E(run, h.class, h.prefix, h.status, h.strict, st.checks, res.cats[k], res.texts[k], human)
+				emitE2E(run, h.class, h.prefix, h.status, h.strict, st.checks, res.cats[k], text, human)
 				if h.installed {
-					if k == 0 {
+					if ti == 0 {
 						installedJobs = append(installedJobs, installedJob{class: "installed-" + h.class})
 					}
 					job := &installedJobs[len(installedJobs)-1]
-					job.texts = append(job.texts, res.texts[k])
-					job.emit = append(job.emit, e2eCase(run, h.prefix, h.status, h.strict, st.checks, res.cats[k], res.texts[k], human))
+					job.texts = append(job.texts, text)
+					job.emit = append(job.emit, e2eCase(run, h.prefix, h.status, h.strict, st.checks, res.cats[k], text, human))
 				}
 			}
 		}
